@@ -25,13 +25,21 @@ func (m *Mutex) Unlock_(site int, owner any) {
 func (m *Mutex) Lock()   { m.Lock_(0, nil) }
 func (m *Mutex) Unlock() { m.Unlock_(0, nil) }
 
+// RWMutex: as sync.RWMutex, a Lock that has been called and is waiting for the readers to leave
+// keeps new readers out ("if any goroutine calls Lock while the lock is already held by one or
+// more readers, concurrent calls to RLock will block until the writer has acquired (and
+// released) the lock"). The call of Lock is a step of its own (lockreq), so that a writer can
+// arrive at any point relative to the readers; recursive read locking deadlocks here exactly
+// when it can in the real thing.
 type RWMutex struct {
-	w bool
-	r int
+	w     bool
+	r     int
+	wwait int // writers that have called Lock and not yet acquired
 }
 
 func (m *RWMutex) Lock_(site int, owner any) {
-	vt.Do(site, "lock", m, owner, func() bool { return !m.w && m.r == 0 }, func() string { m.w = true; return "" })
+	vt.Do(site, "lockreq", m, owner, nil, func() string { m.wwait++; return "" })
+	vt.Do(site, "lock", m, owner, func() bool { return !m.w && m.r == 0 }, func() string { m.w = true; m.wwait--; return "" })
 }
 func (m *RWMutex) Unlock_(site int, owner any) {
 	vt.Do(site, "unlock", m, owner, nil, func() string {
@@ -43,7 +51,7 @@ func (m *RWMutex) Unlock_(site int, owner any) {
 	})
 }
 func (m *RWMutex) RLock_(site int, owner any) {
-	vt.Do(site, "rlock", m, owner, func() bool { return !m.w }, func() string { m.r++; return "" })
+	vt.Do(site, "rlock", m, owner, func() bool { return !m.w && m.wwait == 0 }, func() string { m.r++; return "" })
 }
 func (m *RWMutex) RUnlock_(site int, owner any) {
 	vt.Do(site, "runlock", m, owner, nil, func() string {
